@@ -191,19 +191,27 @@ class Prop(c17.Prop):
                 "Repo.C18_history_cache_stays", "Repo.C18_history_fail_step", "Repo.C18_preload_repair_succeeds"]
     QUICK_CASES = 260
     THOROUGH_CASES = 4000
-    RULE = ("import graphs as in C17 (<=6 files, 6 providers, global repository on in 9 of 10 graphs); for each graph the "
+    RULE = ("import graphs as in C17 (<=6 files, 6 providers, global repository on in 9 of 10 graphs), metamodel "
+            "configuration: every subset of the rules {Model, Import, Elem, Ref} as user classes (none in 4 of 10 cases, "
+            "the root rule in 85 % of the others; as a list or through a callable); for each graph the "
             "(failing text, phase) pairs over the files and the model without file name x {syntax error, unresolvable "
             "reference, object processor, model processor, missing file} are enumerated; the failing load and its "
             "repaired reload enter textX through model_from_file / model_from_str with file name / model_from_str "
             "without file name (registered as anonymousN) / GlobalRepo.load_models_in_model_repo, chosen so that the "
-            "load constructs the failing text; history = optional warm-up loads (any entry point), the failing load, "
+            "load constructs the failing text, in 6 of 10 cases the entry farthest (import levels) from it; plus the complete "
+            "matrix user-class configuration x depth of the failing file in an import chain x phase; history = optional warm-up loads (any entry point), the failing load, "
             "the reload after the correction, sometimes one more load; non-trivial = a load fails after it has read "
             ">=2 files or with models of earlier loads cached, and a later load of the history succeeds")
     MODELLED = c17.Prop.MODELLED + ("; failure paths: model.py:988-993,1007-1009 handlers, "
                                     "_remove_all_affected_models_in_construction, metamodel._call_model_processors (fix), "
                                     "ModelRepository.remove_model for models under invented names (Repo.loadStr), failing "
-                                    "GlobalRepo.load_models_in_model_repo (Repo.preload)")
+                                    "GlobalRepo.load_models_in_model_repo (Repo.preload); user classes (attribute store of "
+                                    "the parser, model.py get_model_from_str / _end_model_construction / "
+                                    "_abort_model_construction) are an implementation configuration: the model has no "
+                                    "counterpart, the same Lean run is the reference for every configuration")
     ASSUMPTIONS = c17.Prop.ASSUMPTIONS + [
+        "which rules of the language are user classes does not change what a load does to the repositories (checked: "
+        "every configuration is compared with the same model run and judged by the same oracle)",
         "faults are raised by the file itself (syntax, reference) or by processors that fail for the models of marked "
         "files; 'corrected' = the next step's files no longer carry the fault",
         "every load_model(is_main_model=True) of an explicit pre-load is a load of its own: the main loads a failing "
